@@ -152,19 +152,17 @@ class C01(ProgramProperty):
             ctx.count('kind:' + kind, n)
         return None
 
-    def post(self, ctx):
-        # generator-completeness evidence: which LR productions did worker 0 reduce
-        try:
-            h = ctx.sut('A').call('hook_hist')
-            ctx.count('lr_productions_hit_worker0', len(h.get('hit', [])))
-        except Exception:
-            pass
-        return []
+    def worker_end(self, ctx):
+        # generator-completeness evidence (verdicts never depend on it): which LR productions were reduced
+        h = ctx.sut('A').call('hook_hist')
+        ctx.sets.setdefault('lr_productions_reduced', set()).update(h.get('hit', []))
 
     def extra_evidence(self, merged):
         c = merged['counters']
         tot = c.get('gen_invalid', 0) + sum(v for k, v in c.items() if k.startswith('valid_'))
-        return {'gen_invalid_rate': round(c.get('gen_invalid', 0) / max(tot, 1), 4), 'lr_productions_total': 911}
+        hit = merged.get('sets', {}).get('lr_productions_reduced', set())
+        return {'gen_invalid_rate': round(c.get('gen_invalid', 0) / max(tot, 1), 4), 'lr_productions_total': 911, 'lr_productions_reduced': len(hit),
+                'lr_productions_never_reduced': sorted(set(range(911)) - set(hit))[:400]}
 
     def soft_kw_name_line_with_colon(self, case, ctx):
         """C01-F2 region, decided on the *reference* tree: some statement other than a Match starts with the
